@@ -6,6 +6,7 @@ first / middle / last position, and EVERY ordered pair of URL-special characters
 verifies like the exchange does, from the raw request line, headers and body only.
 """
 import asyncio
+import random
 import string
 from decimal import Decimal as D
 
@@ -266,6 +267,7 @@ async def _run(name, tier, res):
             for n, ex, fn, signed, x in calls:
                 srv.reqs.clear()
                 err = None
+                random.seed(20240101)  # an application that (re)seeds the global RNG must not make nonces repeat
                 try:
                     await fn()
                 except Exception as e:  # noqa
